@@ -29,6 +29,10 @@ pub assume_specification[ u64::next_power_of_two ](x: u64) -> (r: u64)
 pub assume_specification[ u64::is_power_of_two ](x: u64) -> (r: bool)
     ensures r == is_pow2(x as nat);
 
+/// T3: `==` on core::cmp::Ordering (derived PartialEq of a std enum)
+pub assume_specification[ <core::cmp::Ordering as PartialEq>::eq ](a: &core::cmp::Ordering, b: &core::cmp::Ordering) -> (r: bool)
+    ensures r == (*a == *b);
+
 // ---- R5 targets -------------------------------------------------------------------------------
 /// `panic!/unimplemented!/unreachable!` sites: must be unreachable
 #[verifier::external_body]
